@@ -122,7 +122,11 @@ class Gen:
                 if r.random() < 0.6:
                     self.rels.append(dict(a=a, b=c, kind="conflict", prio=r.choice(["U", "U", "L", "R"]), rdep=False))
                 else:
-                    if rank[a] > rank[c] and r.random() > o["p_defect"]:
+                    # schedule_before(a, c) needs a defined before c: a usage rule of the library, not one of
+                    # C11's listed defects, so it is never broken on purpose (designs that break it are
+                    # outside C11's quantifier; TxnCore!LateBefore)
+                    if rank[a] > rank[c]:
+                        r.random()  # keeps the random stream of earlier versions
                         a, c = c, a
                     self.rels.append(dict(a=a, b=c, kind="before", prio="L",
                                           rdep=o["rdep_rel"] and r.random() < 0.3))
